@@ -20,7 +20,13 @@ Binding, two layers:
           tile files, per-process control point and buffer) compared with the spec state after every step (drift if not);
       2b. the schedules of the real code are explored (all interleavings of 2 x 1 updates with bounded failed attempts,
           seeded random ones for larger instances) with the property monitors on the real files, every run's full event
-          trace being validated by TLC.
+          trace being validated by TLC.  Time is virtual there (every failed lock poll advances filelock's clock by >= 1 s)
+          and the policy "stall the lock holder before one of its steps while the waiter polls 40 times" is run: a holder
+          may be stalled arbitrarily long, so no finite "the lock must be stale" timeout may break exclusion.
+ Both layers also drive the in-tree caller toast.ToastSampler (update mode) as separately started jobs with masked samplers
+ on FRESH tiles (no file yet), the jobs meeting inside the sampler callable (a barrier for processes, a sync point for
+ threads); the thorough tier adds a real-process holder stalled for 12 s of real time.
+ TLC also refutes the design "finite lock timeout + takeover" (action StealLock) on Mutex and NoLostUpdate.
 """
 import json
 import os
@@ -365,7 +371,7 @@ def _l1_updater(p, sc, d, sh):
                         overlap.value = 1
                         cond.notify_all()
                     elif i == 1:
-                        cond.wait(sc["stall"] if (p == 1 and sc.get("stall")) else DWELL)
+                        cond.wait(sc["stall"] if (t0 == 1 and sc.get("stall")) else DWELL)   # "stall": the first holder overall
                 px0 = project(basis.asarray(), mode)
                 events.append({"ev": "read", "p": p, "i": i, "px": px0, "t": t0})
                 apply_contribution(basis, mode, rid(p, i), region, sc["style"][p - 1][i - 1])
